@@ -299,7 +299,7 @@ func C05(c *core.Ctx) error {
 	c.Ev.Set("per_variant", perVariant)
 	c.Ev.Set("exhaustive", exhaustive && len(bins) == len(variants))
 	if quick {
-		c.Ev.Set("bound", "2 threads x <=2 operations and 3 threads x 1 operation over {A,B,ACalls,BCalls,ResetACalls,ResetBCalls,ResetCalls} (matryer) / {M1,M2,V} with up-front expectations (testify); all schedules with <=2 preemptions")
+		c.Ev.Set("bound", "2 threads x <=2 operations and 3 threads x 1 operation over {A,B,ACalls,BCalls,ResetACalls,ResetBCalls,ResetCalls} (matryer) / {M1,M2,V} with up-front expectations, plus fixed scenarios whose goroutines register their own expectation through EXPECT() (testify); all schedules with <=2 preemptions")
 	} else {
 		c.Ev.Set("bound", "quick scenario set with unbounded preemptions (every interleaving of the scheduling points), plus 3 threads x <=2 operations with <=2 preemptions")
 	}
